@@ -790,6 +790,57 @@ func runE2E(in map[string]any) string {
 			report["pauseTimedOut"] = true
 		}
 		time.Sleep(time.Duration(num(stop, "extraMs", 50)) * time.Millisecond)
+	case "pauseresume":
+		// an operator pauses the running (or idle) pipeline, waits, resumes; then the crawl goes on until the queue is empty
+		for time.Now().Before(deadline) && reqCount() < num(stop, "n", 0) {
+			time.Sleep(2 * time.Millisecond)
+		}
+		pdone := make(chan struct{})
+		go func() { pause.Pause("verif"); close(pdone) }()
+		select {
+		case <-pdone:
+			paused = true
+		case <-time.After(10 * time.Second):
+			report["pauseTimedOut"] = true
+		}
+		time.Sleep(time.Duration(num(stop, "settleMs", 700)) * time.Millisecond)
+		c1 := reqCount()
+		time.Sleep(time.Duration(num(stop, "holdMs", 600)) * time.Millisecond)
+		report["requestsWhilePaused"] = reqCount() - c1
+		rdone := make(chan struct{})
+		go func() { pause.Resume(); close(rdone) }()
+		select {
+		case <-rdone:
+			paused = false
+		case <-time.After(10 * time.Second):
+			report["resumeHung"] = true
+		}
+		report["stillPausedAfterResume"] = pause.IsPaused()
+		stable := 0
+		for time.Now().Before(deadline) {
+			if idle() {
+				stable++
+				if stable >= 3 {
+					break
+				}
+			} else {
+				stable = 0
+			}
+			time.Sleep(100 * time.Millisecond)
+		}
+		report["drained"] = stable >= 3
+	case "lowdisk":
+		// the volume "fills up" while the crawl runs: the disk watcher (not the harness) pauses the pipeline, then the stop request comes
+		for time.Now().Before(deadline) && reqCount() < num(stop, "n", 1) {
+			time.Sleep(2 * time.Millisecond)
+		}
+		config.Get().MinSpaceRequired = 1e9
+		for time.Now().Before(deadline) && !pause.IsPaused() {
+			time.Sleep(20 * time.Millisecond)
+		}
+		paused = pause.IsPaused()
+		report["pausedByDiskWatcher"] = paused
+		time.Sleep(time.Duration(num(stop, "extraMs", 50)) * time.Millisecond)
 	}
 	gauges := func() map[string]uint64 {
 		return map[string]uint64{"pre": stats.PreprocessorRoutinesGet(), "arch": stats.ArchiverRoutinesGet(), "post": stats.PostprocessorRoutinesGet(), "fin": stats.FinisherRoutinesGet()}
